@@ -9,10 +9,14 @@ From Moq Require Import Strs TmplAst GoTypes Registry Scope Gen TmplExec.
 From Moq.gen Require Import TemplateSrc.
 Local Open Scope string_scope.
 
+(* equality of control expressions up to the NAMES of template variables other than the root
+   "$": {{if $mock.TypeParams}} and {{if $m.TypeParams}} are the same condition (the field
+   decides which data it can be applied to), so renaming a template variable is not a change of
+   control flow *)
 Fixpoint texpr_eqb (a b : texpr) {struct a} : bool :=
   match a, b with
   | EDot, EDot => true
-  | EVar x, EVar y => String.eqb x y
+  | EVar x, EVar y => String.eqb x y || (negb (String.eqb x "$") && negb (String.eqb y "$"))
   | EField a1 x, EField b1 y => texpr_eqb a1 b1 && String.eqb x y
   | ECall f xs, ECall g ys =>
     String.eqb f g &&
